@@ -1,6 +1,9 @@
 HOOK_COMMITS = ["d5fe92d", "HEAD~0 (see git log --grep='verif hooks' in /repo)"]
 
 ENGINES = [
+    {"name": "stalex", "path": "harness/stalex", "serves_properties": ["C14"], "kind_free_text": "in-process stale-file-removal runner with recording file system, exhaustive list/roots triples"},
+    {"name": "procx", "path": "harness/procx", "serves_properties": ["C16"], "kind_free_text": "enumeration of child-process behaviours through the real execution queues"},
+    {"name": "tsanx", "path": "harness/tsanx", "serves_properties": ["C05", "C06", "C16"], "kind_free_text": "schedx thread bodies free-running under ThreadSanitizer (sampling; supplementary to schedx for the data-race clause)"},
     {"name": "worldx", "path": "harness/worldx", "serves_properties": ["C08", "C09", "C10"],
      "kind_free_text": "on-disk history explorer: description DSL + reference evaluator + logical clock + deterministic helper command; every history replayed through the real llbuild tool"},
     {"name": "crashx", "path": "harness/crashx", "serves_properties": ["C04"],
@@ -57,8 +60,8 @@ TEXT = {
             "note": "Single-threaded emulation of completion order; real threads under a preemption-bounded scheduler are the schedx part."},
     "C07": {"design_ref": _E + "C07",
             "technique": "exhaustive enumeration of all directed request graphs up to n keys on the real engine + BFS over cycle-capable dynamic worlds",
-            "text": "All directed graphs (self-loops included) on up to 3 keys, a sixteenth (quick) or all (thorough) of the 65536 graphs on 4 keys, and the "
-                    "curated dynamic worlds under depth-3/4 histories with and without database: a required cycle must fail the build with exactly one "
+            "text": "All 66,128 directed graphs (self-loops included) on up to 4 keys (thorough: plus all 5-key graphs with out-degree <= 2), each under every "
+                    "depth-3 history of builds, and the curated dynamic worlds under depth-3/4 histories with and without database: a required cycle must fail the build with exactly one "
                     "report whose list starts at the requested key, follows real wait-for edges and closes; no cycle in requests+recorded dependencies means no report, no stall, success.",
             "note": "Which of several cycles is reported is not constrained."},
 }
@@ -114,7 +117,8 @@ TEXT.update({
             "technique": "exhaustive enumeration of all (path, root) string pairs up to length 6 (8) against a component-wise reference",
             "text": "All 1.86M (477M thorough) absolute (path, root) pairs over {'/','a','b','.'} up to length 6 (8) are passed to the real pathIsPrefixedByPath and "
                     "compared with a split-on-separator, drop-empty-components prefix test.",
-            "note": "Predicate part; the in-process stale-file-removal tool histories are being added with worldx."},
+            "note": "Second part (stalex): every (previous list, current list, roots) triple with lists of <=2 paths from a 12-path alphabet and <=2 roots from 6 is run in process "
+                    "through a real BuildSystem + SQLite database with a recording file system (new BuildSystem per run = restart); the set of remove() calls must equal the reference, nothing else may be touched; three-list histories and real-tmpfs subtree removal in thorough."},
     "C15": {"design_ref": "DESIGN.md §5 C15",
             "technique": "exhaustive enumeration of keys/values of every kind over a byte alphabet; round-trip, canonicity and global injectivity oracles",
             "text": "All 9 key kinds x names up to length 3 (4) over {'a','/',NUL,0xFF} x filter lists, all 18 value kinds x 0..3 outputs x FileInfo fields in "
@@ -126,7 +130,9 @@ TEXT.update({
             "text": "Four bodies (lane queue with 2 lanes and serial queue, each with and without a concurrent cancelAllJobs): 4 jobs incl. one High priority and one "
                     "submitted from inside a job, then destruction; every schedule with at most 2 (3) preemptions / early timer firings (1 (2) for the canceller "
                     "bodies) is executed: every job exactly once before the destructor returns, in-flight <= lanes, started/finished paired, no deadlock or lost wake-up, no thread left blocked.",
-            "note": "Queue half only so far; the subprocess behaviours (exit codes, signals, output volume, environment precedence) part is not built yet."},
+            "note": "Subprocess half (procx): every exit code 0..255, 8 fatal signals, 8 output-size classes (position-coded bytes), early close, lane release over the control fd, spawn errors, "
+                    "environment precedence cases and cancellation placements through the real queues' executeProcess: completion exactly once after the last output, status mapping, no zombie. "
+                    "Kernel scheduling of the children is not controlled. tsanx: the same thread bodies free-running under ThreadSanitizer (sampling, supplementary)."},
     "C17": {"design_ref": "DESIGN.md §5 C17",
             "technique": "bounded-exhaustive differential testing against the reference implementation /usr/bin/ninja 1.11.1",
             "text": "Every manifest with at most 2 (3) non-default features out of a 27-dimension grammar (path flavours incl. non-ASCII bytes, input classes, "
